@@ -33,6 +33,7 @@ type c50Node struct {
 	Old   []float64 `json:"old_samples_ns,omitempty"`   // recorded more than ten minutes before the query
 	Fresh []float64 `json:"fresh_samples_ns,omitempty"` // recorded within the last second
 	Drop  bool      `json:"dropped,omitempty"`          // measurements dropped (node forgotten) before the query
+	Lost  int       `json:"lost_probes,omitempty"`      // probes sent just now that were never answered (no round-trip measured)
 }
 
 type c50Plan struct {
@@ -76,6 +77,12 @@ func genC50(seed uint64) *c50Plan {
 		}
 		nd.Drop = r.Intn(8) == 0
 		p.Nodes = append(p.Nodes, nd)
+	}
+	// a gateway that does not answer: probes go out, none comes back - it has no recent round-trip measurement
+	for i := range p.Nodes {
+		if len(p.Nodes[i].Fresh) == 0 && r.Intn(5) < 2 {
+			p.Nodes[i].Lost = 1 + r.Intn(3)
+		}
 	}
 	return p
 }
@@ -144,6 +151,11 @@ func c50Body(res *hcommon.RunResult, p *c50Plan) {
 					rec.RecordSent(key)
 					simrt.Sleep(time.Duration(1+simrt.Env().Intn(40))*time.Millisecond, "c:probe")
 					rec.RecordLatency(key, v)
+				}
+				for k := 0; k < n.Lost; k++ {
+					rec.RecordSent(key)
+					simrt.Sleep(time.Duration(1+simrt.Env().Intn(40))*time.Millisecond, "c:probe")
+					rec.RecordLost(key)
 				}
 				if n.Drop {
 					rec.Drop(key)
